@@ -224,3 +224,176 @@ def add_model_events(rng, s, tables, density_num=60, wrong_num=4):
                 new.append((t, c, mid + chr(e["c"]) + chr(e["v"]), b""))
     s.events = new
     return stacks
+
+
+def u32(x):
+    import struct
+    return struct.pack("<I", x & 0xFFFFFFFF)
+
+
+def task_history(rng, s, tables, model, build, wrong_num=2):
+    """a scenario with task events of `model` ('nosv' or 'nanos6') on top of a simple thread history"""
+    from .emucore import Jumbo, gids, task_label
+    M = "V" if model == "nosv" else "6"
+    n = len(s.threads)
+    clk = 10
+    ev = s.events
+    # ranks per process
+    procs = sorted(set((t["loom"], t["pid"]) for t in s.threads))
+    if rng.chance(1, 2):
+        for i, pr in enumerate(procs):
+            for t in s.threads:
+                if (t["loom"], t["pid"]) == pr:
+                    t["rank"] = i
+                    t["nranks"] = len(procs)
+    for t in s.threads:
+        t["app"] = 1 + rng.below(3) if rng.chance(1, 3) else 1
+    # appid must agree within a process
+    for pr in procs:
+        app = None
+        for t in s.threads:
+            if (t["loom"], t["pid"]) == pr:
+                app = app or t["app"]
+                t["app"] = app
+    ncpu = {name: len(c) for name, c in s.looms.items()}
+    used = {}
+    for t in range(n):
+        clk += 2
+        loom = s.threads[t]["loom"]
+        k = used.get(loom, 0)
+        idx = k if k < ncpu[loom] else -1
+        used[loom] = k + 1
+        ev.append((t, clk, "OHx", i32(idx) + i32(s.threads[t]["tid"]) + i32(0)))
+    tstate = ["Running"] * n
+    # types and tasks per process
+    labels = ["", "main", "work", "a long task type label", "w"]
+    types = {}     # proc -> list of typeids
+    tasks = {}     # proc -> {taskid: dict(par, bodies{bid: state}, on)}
+    stacks = {t: [] for t in range(n)}
+    need_labels = set()
+    for pr in procs:
+        tl = [t for t in range(n) if (s.threads[t]["loom"], s.threads[t]["pid"]) == pr]
+        for k in range(rng.range(1, 3)):
+            fresh = [x for x in range(1, 8) if x not in types.get(pr, [])]
+            typeid = rng.choice(fresh) if not rng.chance(wrong_num, 400) else rng.choice([0] + types.get(pr, [0]))
+            lab = rng.choice(labels)
+            clk += 2
+            ev.append((rng.choice(tl), clk, M + "Yc", Jumbo(u32(typeid) + lab.encode() + b"\0")))
+            need_labels.add(task_label(typeid, lab))
+            if typeid and typeid not in types.setdefault(pr, []):
+                types[pr].append(typeid)
+        for k in range(rng.range(1, 4)):
+            if not types.get(pr):
+                break
+            freshk = [x for x in range(1, 9) if x not in tasks.get(pr, {})]
+            taskid = rng.choice(freshk) if not rng.chance(wrong_num, 400) else rng.range(0, 3)
+            par = model == "nosv" and rng.chance(1, 4)
+            typeid = rng.choice(types[pr]) if not rng.chance(wrong_num, 300) else 9
+            clk += 2
+            ev.append((rng.choice(tl), clk, M + ("TC" if par else "Tc"), u32(taskid) + u32(typeid)))
+            if typeid in types[pr] and taskid not in tasks.setdefault(pr, {}):
+                tasks[pr][taskid] = {"par": par, "bodies": {}}
+    s.gid = gids(build, sorted(need_labels))
+    # random operations
+    for _ in range(rng.range(3, 40)):
+        t = rng.below(n)
+        pr = (s.threads[t]["loom"], s.threads[t]["pid"])
+        clk += rng.range(1, 4)
+        r = rng.below(100)
+        if r < 8:
+            # thread state change in between
+            if tstate[t] == "Running":
+                ev.append((t, clk, "OHp", b"")); tstate[t] = "Paused"
+            elif tstate[t] == "Paused":
+                ev.append((t, clk, "OHr", b"")); tstate[t] = "Running"
+            continue
+        if tstate[t] != "Running" and not rng.chance(1, 10):
+            continue
+        tk = tasks.get(pr, {})
+        if not tk:
+            continue
+        wrong = rng.chance(wrong_num, 100)
+        stk = stacks[t]
+        cands = []
+        top = stk[-1] if stk else None
+        if top:
+            (tid, bid) = top
+            st = tk[tid]["bodies"][bid]["st"]
+            if st == "R":
+                cands += [("e", tid, bid)] * 3
+                if not tk[tid]["par"]:
+                    cands += [("p", tid, bid)] * 2
+            elif st == "P":
+                cands += [("r", tid, bid)] * 2
+        nest_running = model == "nanos6" and top and tk[top[0]]["bodies"][top[1]]["st"] == "R" and rng.chance(1, 3)
+        if not top or tk[top[0]]["bodies"][top[1]]["st"] == "P" or nest_running:
+            for tid, info in tk.items():
+                if info["par"]:
+                    for bid in (1, 2, 3):
+                        b = info["bodies"].get(bid)
+                        if b is None or (b["st"] == "D" and False):
+                            cands.append(("x", tid, bid))
+                else:
+                    b = info["bodies"].get(0)
+                    if b is None or (b["st"] == "D" and model == "nosv"):
+                        cands.append(("x", tid, 0))
+        if not wrong and not cands:
+            continue
+        if wrong:
+            kind = rng.choice("xepr")
+            tid = rng.choice(sorted(tk)) if not rng.chance(1, 5) else 77
+            bid = rng.choice([0, 1, 2])
+            cands = [(kind, tid, bid)]
+            wrong = True
+        (kind, tid, bid) = rng.choice(cands)
+        payload = u32(tid) + u32(bid) if model == "nosv" else u32(tid)
+        if not wrong and kind == "x" and model == "nanos6" and top:
+            # Nanos6 nests over a running task inside a subsystem region (submit), closed after the nested task ends
+            ev.append((t, clk, "6U[", b""))
+            clk += 1
+            tk[tid].setdefault("wrapped", set()).add(bid)
+        if not wrong and kind == "e" and bid in tk[tid].get("wrapped", ()):
+            ev.append((t, clk, M + "T" + kind, payload))
+            clk += 1
+            ev.append((t, clk, "6U]", b""))
+            tk[tid]["wrapped"].discard(bid)
+            tk[tid]["bodies"][bid]["st"] = "D"
+            stk.pop()
+            continue
+        ev.append((t, clk, M + "T" + kind, payload))
+        if wrong:
+            continue
+        info = tk[tid]
+        if kind == "x":
+            info["bodies"][bid] = {"st": "R"}
+            stk.append((tid, bid))
+        elif kind == "e":
+            info["bodies"][bid]["st"] = "D"
+            stk.pop()
+        elif kind == "p":
+            info["bodies"][bid]["st"] = "P"
+        elif kind == "r":
+            info["bodies"][bid]["st"] = "R"
+    # wind down
+    for t in range(n):
+        pr = (s.threads[t]["loom"], s.threads[t]["pid"])
+        if tstate[t] == "Paused":
+            clk += 1
+            ev.append((t, clk, "OHr", b""))
+        if rng.chance(9, 10):
+            while stacks[t]:
+                (tid, bid) = stacks[t][-1]
+                st = tasks[pr][tid]["bodies"][bid]["st"]
+                clk += 1
+                payload = lambda: (u32(tid) + u32(bid) if model == "nosv" else u32(tid))
+                if st == "P":
+                    ev.append((t, clk, M + "Tr", payload()))
+                    clk += 1
+                ev.append((t, clk, M + "Te", payload()))
+                if bid in tasks[pr][tid].get("wrapped", ()):
+                    clk += 1
+                    ev.append((t, clk, "6U]", b""))
+                tasks[pr][tid]["bodies"][bid]["st"] = "D"
+                stacks[t].pop()
+        clk += 1
+        ev.append((t, clk, "OHe", b""))
